@@ -285,8 +285,10 @@ fn oracle_join(base: &str, loc: &str) -> Value {
 // ---------------------------------------------------------------- generation
 const HOSTS: [&str; 3] = ["http://example.com", "https://example.com", "http://other.test"];
 const PATHS: [&str; 12] = ["/", "/a", "/a/b", "/x/y", "/x/z/w", "/x/z/q", "/x/q", "/loop1", "/loop2", "/end", "/a/b/c/d", "/dir/"];
-const RELS: [&str; 18] = ["z/w", "q", "../k", "/abs/path", "?x=1", "#frag", "//other.test/p2", "./", "..", "", "b/c/", "../../up", "next?p=1&q=2",
-    "x y", "%7Euser", "a/./b/../c", "/", "k;v=1"];
+const RELS: [&str; 24] = ["z/w", "q", "../k", "/abs/path", "?x=1", "#frag", "//other.test/p2", "./", "..", "", "b/c/", "../../up", "next?p=1&q=2",
+    "x y", "%7Euser", "a/./b/../c", "/", "k;v=1",
+    // relative references that CONTAIN a URL (a return address in the query, a fragment): still relative
+    "/login?return_to=https://app.example/account", "cb?u=http://h.test/p&v=1", "#at=https://x.test/", "p/q?next=ftp://f.test/", "?r=http://example.com/x/y", "a://b"];
 const BAD_LOCS: [&str; 6] = ["http://[::1", "http://", "https://exa mple.com/", "http://example.com:99999/", "http:///x", "http://a b/"];
 const REDIRECT_CODES: [u16; 5] = [301, 302, 303, 307, 308];
 
